@@ -441,7 +441,9 @@ class DiscreteQuadraticModel:
         length = np.frombuffer(file_like.read(4), '<u4')[0]
         start = file_like.tell()
 
-        data = np.load(file_like)
+        # the data section can be followed by a (large) variables section, so
+        # only hand NumPy the data section itself
+        data = np.load(io.BytesIO(file_like.read(length)))
 
         obj = cls.from_numpy_vectors(data['case_starts'],
                                      data['linear_biases'],
